@@ -30,12 +30,13 @@ RECEIVER_SENSITIVE = {"remove": ("Vec", "String", "VecDeque"), "insert": ("Vec",
 
 # frozen rows: (function-name fragment, callee fragment) -> (class, reason, max count)
 TABLE = [
-    ("Enr::<K>::get::{closure#0}", "::expect", "inv", "INV-RLP: every stored value is exactly one well-formed RLP item (re-checked below with the C05 rules)", 1),
+    ("Enr::<K>::get", "::expect", "inv", "INV-RLP: every stored value is exactly one well-formed RLP item (re-checked below with the C05 rules)", 1),
     ("Enr::<K>::public_key", "::expect", "inv", "INV-PK: every record is keyed to a key K::enr_to_public accepts (typestate keyed(k), decode's enr_to_public?, build's add_public_key; re-checked below)", 1),
     ("EnrPublicKey for ecdsa::verifying::VerifyingKey", "CtOption", "lib", "k256: a VerifyingKey is a valid curve point, so decompressing its own x with its own parity succeeds", 1),
     ("EnrPublicKey for ecdsa::verifying::VerifyingKey", "Option::<&k256::elliptic_curve::generic_array", "lib", "k256: to_encoded_point(false) of an affine point has a y coordinate", 1),
     ("EnrPublicKey for ecdsa::verifying::VerifyingKey", "core::panicking::panic", "lib", "k256: EncodedPoint::from(&VerifyingKey) is never the identity nor compact (unreachable!)", 1),
     ("EnrPublicKey for ecdsa::verifying::VerifyingKey", "copy_from_slice", "lib", "k256: field elements are GenericArray<u8, U32> (32 bytes by type) copied into 32-byte halves of a [u8;64]", 2),
+    ("EnrPublicKey for ecdsa::verifying::VerifyingKey", "Index<std::ops::RangeFrom<usize>>>::index", "lib", "k256: the uncompressed SEC1 encoding of a public key is 65 bytes, so [1..] is in range", 1),
     ("digest", "copy_from_slice", "lib", "sha3: Keccak256 output is GenericArray<u8, U32> (32 bytes by type) copied into [u8;32]", 1),
     ("node_id::NodeId as std::fmt::Display", "String as std::ops::Index", "lib", "hex::encode of [u8;32] is 64 ASCII characters: [0..4] and [60..] are in range and on char boundaries", 2),
     ("node_id::NodeId as std::fmt::Display", "overflow:Sub", "lib", "hex::encode of [u8;32] has length 64 >= 4", 1),
@@ -199,6 +200,24 @@ def discharge(ctx, f, an, site):
                     v = a + b2 if op.startswith("Add") else a - b2 if op.startswith("Sub") else a * b2
                     if 0 <= v < 2**64:
                         return ("const", "arithmetic on the constants %d and %d" % (a, b2))
+                if st.rv.j["op"].startswith("Add"):
+                    # sums of in-memory lengths and small constants cannot overflow usize
+                    def lengthy(o):
+                        e2 = strip(an.operand_expr(o, bb, i))
+                        if e2.k == "field" and e2.a[1] == "0" and e2.a[0].k == "binop" and e2.a[0].a[0].startswith("Add"):
+                            return all(lengthy_e(x) for x in (e2.a[0].a[1], e2.a[0].a[2]))
+                        return lengthy_e(e2)
+
+                    def lengthy_e(e2):
+                        e2 = strip(e2)
+                        c2 = const_int(e2)
+                        if c2 is not None:
+                            return 0 <= c2 < 2**32
+                        if e2.k == "field" and e2.a[1] == "0" and e2.a[0].k == "binop" and e2.a[0].a[0].startswith("Add"):
+                            return all(lengthy_e(x) for x in (e2.a[0].a[1], e2.a[0].a[2]))
+                        return e2.k == "call" and e2.a[0].name in ("len", "length", "capacity", "size", "length_with_payload", "payload_length") and e2.a[0].krate in ("core", "alloc", "std", "bytes", "alloy_rlp", "enr")
+                    if all(lengthy(o) for o in st.rv.ops):
+                        return ("lib", "sum of in-memory buffer lengths / small constants cannot overflow usize")
         return None
     if site["kind"] != "call":
         return None
@@ -247,6 +266,9 @@ def discharge(ctx, f, an, site):
         return None
     if name in ("index", "index_mut"):
         base, ix = args[0], args[1]
+        rf = strip(ix)
+        if rf.k == "agg" and rf.a[0].endswith("RangeFull"):
+            return ("const", "[..] never panics")
         st = c.self_ty["s"] if c.self_ty else ""
         n = array_len_of_ty(st)
         r = shapes.range_of(ix)
